@@ -35,6 +35,7 @@ import (
 	"go/token"
 	"go/types"
 	"sort"
+	"strings"
 
 	"golang.org/x/tools/go/ssa"
 )
@@ -152,8 +153,8 @@ func fieldLoad(in ssa.Instruction) (int, bool) {
 
 // ownedValues: the owned values of f (see the comment at the top) as a map to
 // class numbers; classes are numbered in program order of their first member.
-// With fields = true the loads of slices held in receiver fields are roots too.
-func ownedValues(f *ssa.Function, fields bool) (owned map[ssa.Value]int, roots []ssa.Value) {
+// The loads of the slices held in the receiver fields k with fields(k) are roots too.
+func ownedValues(f *ssa.Function, fields func(k int) bool) (owned map[ssa.Value]int, roots []ssa.Value) {
 	set := map[ssa.Value]bool{}
 	var order []ssa.Value
 	add := func(v ssa.Value) bool {
@@ -192,7 +193,7 @@ func ownedValues(f *ssa.Function, fields bool) (owned map[ssa.Value]int, roots [
 				if ownedRoot(in) {
 					changed = add(v) || changed
 				}
-				if _, isFieldLoad := fieldLoad(in); isFieldLoad && fields {
+				if k, isFieldLoad := fieldLoad(in); isFieldLoad && fields(k) {
 					changed = add(v) || changed
 				}
 			}
@@ -266,7 +267,7 @@ func (tr *translator) returnsFresh(f *ssa.Function) bool {
 		return false
 	}
 	tr.freshMemo[f] = 1
-	owned, _ := ownedValues(f, false)
+	owned, _ := ownedValues(f, func(int) bool { return false })
 	ok := true
 	var fresh func(v ssa.Value) bool
 	fresh = func(v ssa.Value) bool {
@@ -306,6 +307,105 @@ func (tr *translator) returnsFresh(f *ssa.Function) bool {
 	return ok
 }
 
+// fieldsWritten: the receiver fields a method may change: by a store to the
+// field, by a store / copy into the slice the field holds, or through a call of
+// another method on the same receiver.
+func (tr *translator) fieldsWritten(f *ssa.Function) map[int]bool {
+	if r, ok := tr.writtenMemo[f]; ok {
+		return r
+	}
+	res := map[int]bool{}
+	tr.writtenMemo[f] = res
+	if f.Signature.Recv() == nil || len(f.Params) == 0 {
+		return res
+	}
+	recv := ssa.Value(f.Params[0])
+	owned, _ := ownedValues(f, func(int) bool { return true })
+	clsFields := map[int][]int{}
+	for v, cls := range owned {
+		if in, isInstr := v.(ssa.Instruction); isInstr {
+			if k, ok := fieldLoad(in); ok {
+				clsFields[cls] = append(clsFields[cls], k)
+			}
+		}
+	}
+	through := func(x ssa.Value) {
+		if cls, ok := owned[x]; ok {
+			for _, k := range clsFields[cls] {
+				res[k] = true
+			}
+		}
+	}
+	for _, b := range f.Blocks {
+		for _, in := range b.Instrs {
+			switch x := in.(type) {
+			case *ssa.Store:
+				switch a := x.Addr.(type) {
+				case *ssa.FieldAddr:
+					if a.X == recv {
+						res[a.Field] = true
+					}
+				case *ssa.IndexAddr:
+					through(a.X)
+				}
+			case *ssa.Call:
+				if call, ok := isBuiltinCall(in, "copy"); ok {
+					through(call.Call.Args[0])
+					continue
+				}
+				callee := x.Call.StaticCallee()
+				if callee != nil && callee != f && callee.Signature.Recv() != nil && len(x.Call.Args) > 0 && x.Call.Args[0] == recv {
+					if _, isTarget := tr.byFunc[callee]; isTarget {
+						for k := range tr.fieldsWritten(callee) {
+							res[k] = true
+						}
+					}
+				}
+			}
+		}
+	}
+	return res
+}
+
+// globalIntsOf: the package-level variables of integer type of the module that
+// the function reads, directly or through the targets it calls, by name.  In
+// generation 3 they become extra parameters of the generated definition (the
+// value of the variable at the time of the call; nothing translated writes
+// them).
+func (tr *translator) globalIntsOf(f *ssa.Function) []*ssa.Global {
+	if r, ok := tr.globalInts[f]; ok {
+		return r
+	}
+	tr.globalInts[f] = nil
+	set := map[*ssa.Global]bool{}
+	for _, b := range f.Blocks {
+		for _, in := range b.Instrs {
+			switch x := in.(type) {
+			case *ssa.UnOp:
+				g, ok := x.X.(*ssa.Global)
+				if ok && x.Op == token.MUL && isIntType(x.Type()) && g.Pkg != nil && strings.HasPrefix(g.Pkg.Pkg.Path(), modulePath+"/") {
+					set[g] = true
+				}
+			case *ssa.Call:
+				if callee := x.Call.StaticCallee(); callee != nil && callee != f {
+					if _, isTarget := tr.byFunc[callee]; isTarget && tr.genOf(tr.byFunc[callee]) >= 3 {
+						for _, g := range tr.globalIntsOf(callee) {
+							set[g] = true
+						}
+					}
+				}
+			}
+		}
+	}
+	var r []*ssa.Global
+	for g := range set {
+		r = append(r, g)
+	}
+	sort.Slice(r, func(i, j int) bool { return r[i].String() < r[j].String() })
+	tr.globalInts[f] = r
+	return r
+}
+
 // analyseMemory: the owned values and classes of the function, and for every
 // block the classes that are live on entry (used later, before being
 // re-allocated) without being redefined by a phi of the block.
@@ -317,9 +417,35 @@ func (c *fnCtx) analyseMemory() {
 	if c.gen < 3 {
 		return
 	}
-	c.owned, c.clsRoot = ownedValues(c.f, true)
+	written := c.tr.fieldsWritten(c.f)
+	c.owned, c.clsRoot = ownedValues(c.f, func(k int) bool { return written[k] })
 	if len(c.owned) == 0 {
 		return
+	}
+	// the receiver fields whose memory a class may share: the class contains a load of the field, or a member
+	// of the class is stored into the field
+	c.clsFields = map[int]map[int]bool{}
+	shares := func(cls, k int) {
+		if c.clsFields[cls] == nil {
+			c.clsFields[cls] = map[int]bool{}
+		}
+		c.clsFields[cls][k] = true
+	}
+	for _, b := range c.f.Blocks {
+		for _, in := range b.Instrs {
+			if k, ok := fieldLoad(in); ok {
+				if cls, isOwned := c.owned[in.(ssa.Value)]; isOwned {
+					shares(cls, k)
+				}
+			}
+			if st, ok := in.(*ssa.Store); ok {
+				if fa, isField := st.Addr.(*ssa.FieldAddr); isField {
+					if cls, isOwned := c.owned[st.Val]; isOwned {
+						shares(cls, fa.Field)
+					}
+				}
+			}
+		}
 	}
 	// a phi of a class merges owned values only (or nil)
 	for v := range c.owned {
@@ -374,7 +500,8 @@ func (c *fnCtx) analyseMemory() {
 				in := b.Instrs[k]
 				if v, isVal := in.(ssa.Value); isVal {
 					if cls, ok := c.owned[v]; ok {
-						_, isFieldLoad := fieldLoad(in)
+						k, isFieldLoad := fieldLoad(in)
+						isFieldLoad = isFieldLoad && written[k]
 						if _, isPhi := in.(*ssa.Phi); isPhi || ownedRoot(in) || isFieldLoad {
 							delete(live, cls)
 						}
@@ -464,7 +591,7 @@ func (c *fnCtx) readOwned(v ssa.Value) string {
 	cls := c.owned[v]
 	view, ok := c.curp[viewKey(cls)]
 	if !ok {
-		fail("use of %s where its memory is not tracked", v.Name())
+		fail("use of %s where its memory is not tracked (a stale view: since it was loaded the receiver field was re-assigned, written through another view, or a method of the receiver was called; or the value is dead at an enclosing join)", v.Name())
 	}
 	if view != v.Name() {
 		fail("%s is used although it is not the only live view of its memory (since %s was defined by append, slicing, a phi or a new allocation, the memory may be shared)", v.Name(), view)
@@ -486,6 +613,17 @@ func fieldOfKey(k string) int {
 func (c *fnCtx) setContents(cur map[int]string, cls int, name string) {
 	if k, tied := cur[tieKey(cls)]; tied {
 		cur[fieldOfKey(k)] = name
+		// a slice derived from the field's memory by append / slicing and not stored back may or may not see this
+		// write: it is stale from here on
+		for key, f := range cur {
+			if key >= taintBase && f == k {
+				other := key - taintBase
+				if _, otherTied := cur[tieKey(other)]; !otherTied {
+					delete(cur, viewKey(other))
+					delete(cur, memKey(other))
+				}
+			}
+		}
 		return
 	}
 	if k, tainted := cur[taintKey(cls)]; tainted {
@@ -526,20 +664,43 @@ func (c *fnCtx) freshName(base string) string {
 	return fmt.Sprintf("%s_%d", base, c.fresh)
 }
 
-// mutatesClass: can the instruction change an element of the class's memory?
+// mayShare: the two classes are the same, or both may share memory with the same receiver field.
+func (c *fnCtx) mayShare(a, b int) bool {
+	if a == b {
+		return true
+	}
+	for k := range c.clsFields[a] {
+		if c.clsFields[b][k] {
+			return true
+		}
+	}
+	return false
+}
+
+// mutatesClass: can the instruction change an element of the class's memory (or, for memory of a receiver
+// field, re-assign the field)?
 func (c *fnCtx) mutatesClass(in ssa.Instruction, cls int) bool {
 	switch x := in.(type) {
 	case *ssa.Store:
-		if ia, ok := x.Addr.(*ssa.IndexAddr); ok {
-			if k, ok := c.owned[ia.X]; ok && k == cls {
+		switch a := x.Addr.(type) {
+		case *ssa.IndexAddr:
+			if k, ok := c.owned[a.X]; ok && c.mayShare(k, cls) {
+				return true
+			}
+		case *ssa.FieldAddr:
+			if c.clsFields[cls][a.Field] {
 				return true
 			}
 		}
 	case *ssa.Call:
 		if call, ok := isBuiltinCall(in, "copy"); ok {
-			if k, ok := c.owned[call.Call.Args[0]]; ok && k == cls {
+			if k, ok := c.owned[call.Call.Args[0]]; ok && c.mayShare(k, cls) {
 				return true
 			}
+			return false
+		}
+		if callee := x.Call.StaticCallee(); callee != nil && callee.Signature.Recv() != nil && len(c.clsFields[cls]) > 0 {
+			return true // a method of the receiver may write the memory its fields hold
 		}
 	}
 	return false
@@ -829,4 +990,71 @@ func (c *fnCtx) emitMem(in ssa.Instruction, ind int, cur map[int]string) bool {
 		return false
 	}
 	return false
+}
+
+// emitStoringCall: a call of another method on the same receiver that changes
+// receiver fields.  The callee's definition returns its results followed by
+// the final values of the fields it may write (ascending field index).
+func (c *fnCtx) emitStoringCall(v *ssa.Call, callee *ssa.Function, expr string, ind int, cur map[int]string) {
+	var ks []int
+	for k := range c.tr.fieldsWritten(callee) {
+		if _, ok := c.fieldParam[k]; !ok {
+			fail("call of method %s, which writes the receiver field %s", callee.Name(), c.recvStruct.Field(k).Name())
+		}
+		ks = append(ks, k)
+	}
+	sort.Ints(ks)
+	var parts []string
+	res := callee.Signature.Results()
+	for i := 0; i < res.Len(); i++ {
+		parts = append(parts, leanType(res.At(i).Type()))
+	}
+	nres := len(parts)
+	for _, k := range ks {
+		parts = append(parts, leanType(c.recvStruct.Field(k).Type()))
+	}
+	ty := strings.Join(parts, " × ")
+	if len(parts) > 1 {
+		ty = "(" + ty + ")"
+	}
+	proj := func(i int) string {
+		if len(parts) == 1 {
+			return ""
+		}
+		p := strings.Repeat(".2", i)
+		if i < len(parts)-1 {
+			p += ".1"
+		}
+		return p
+	}
+	r := c.freshName("ret")
+	if c.tr.canPanic(callee) || c.tr.needsFuel(callee) {
+		c.line(ind, "Option.bind (%s) fun (%s : %s) =>", expr, r, ty)
+	} else {
+		c.line(ind, "let %s : %s := %s;", r, ty, expr)
+	}
+	switch {
+	case nres == 1:
+		c.let(ind, v, r+proj(0))
+	case nres > 1:
+		var rs []string
+		for i := 0; i < nres; i++ {
+			rs = append(rs, r+proj(i))
+		}
+		c.let(ind, v, "("+strings.Join(rs, ", ")+")")
+	}
+	// the callee may have re-assigned the slices the receiver holds: every view loaded before the call is stale
+	for key := range cur {
+		if key >= taintBase {
+			other := key - taintBase
+			delete(cur, tieKey(other))
+			delete(cur, viewKey(other))
+			delete(cur, memKey(other))
+		}
+	}
+	for i, k := range ks {
+		name := c.freshName(c.fieldParam[k])
+		c.line(ind, "let %s : %s := %s%s;", name, leanType(c.recvStruct.Field(k).Type()), r, proj(nres+i))
+		cur[k] = name
+	}
 }
